@@ -1,7 +1,7 @@
 #!/bin/bash
 # tools/confirm_seed.sh <ID> <n> : independently confirm a sub-agent's seeded change in its scratch worktree
 # (patch applies to current /repo HEAD, suite still passes with it, demo fails with it and passes without).
-id=$1; n=$2; wt=/tmp/wt/$id; out=$wt/_out/$n
+id=$1; n=$2; wt=${WTBASE:-/tmp/wt}/$id; out=$wt/_out/$n
 export CARGO_NET_OFFLINE=true CARGO_TARGET_DIR=$wt/target
 cd $wt || exit 2
 git checkout -q -- . ; git checkout -q --detach main 2>/dev/null
